@@ -12,16 +12,23 @@ EXTENDS Naturals, Sequences, FiniteSets, TLC
 Opt(S) == S \cup {"-"}                       \* "-" : the optional field is absent
 Cat(x) == IF x = "-" THEN "" ELSE x
 Nodes == [kind : {"node"}, id : {"aa", "ab"}, room : Opt({"aa", "ba"}), c : {"a", "b"}, m : {"a", "b"},
-          ent : {"a", "b", "aa", "ab", "ba"}, bin : Opt({"", "a", "b", "aa"})]
+          ent : {"a", "b", "aa", "ab", "ba"}, json : {"-"}, bin : Opt({"", "a", "b", "aa"})]
+\* nodes with a JSON payload: block a is the eight bytes of {"a":1} and a space, block b eight spaces, so that a, ab and ba
+\* are JSON objects (the code refuses anything else) and the same blocks can appear in the binary payload.  The code hashes the JSON
+\* text re-serialised as a JSON string: between quotes, which no other field can contain - the only delimiter of the digest
+JNodes == [kind : {"node"}, id : {"aa"}, room : Opt({"aa"}), c : {"a"}, m : {"a"}, ent : {"a", "ab"}, json : {"a", "ab", "ba"}, bin : Opt({"", "a", "b", "ab"})]
+Quoted(j) == IF j = "-" THEN "" ELSE "q" \o j \o "q"
 Edges == [kind : {"edge"}, src : {"aa"}, sent : {"a", "b", "aa", "ab"}, label : {"a", "b", "aa", "ba"}, dst : {"aa", "ab"}, c : {"a", "b"}]
 NTombs == [kind : {"ntomb"}, room : {"aa"}, id : {"aa", "ab"}, m : {"a", "b"}, ent : {"a", "aa", "ab"}, d : {"a", "b"}]
 ETombs == [kind : {"etomb"}, room : {"aa"}, src : {"aa"}, sent : {"a", "aa", "ab"}, label : {"a", "b", "ba"}, dst : {"aa"}, c : {"a", "b"}, d : {"a", "b"}]
-Rows == Nodes \cup Edges \cup NTombs \cup ETombs
+Rows == Nodes \cup JNodes \cup Edges \cup NTombs \cup ETombs
 \* the pre-image of the digest, field order as in the code (the signer's key, appended last, is the same for both rows)
-Pre(r) == CASE r.kind = "node" -> r.id \o Cat(r.room) \o r.c \o r.m \o r.ent \o Cat(r.bin)
+Pre(r) == CASE r.kind = "node" -> r.id \o Cat(r.room) \o r.c \o r.m \o r.ent \o Quoted(r.json) \o Cat(r.bin)
             [] r.kind = "edge" -> r.src \o r.sent \o r.label \o r.dst \o r.c
             [] r.kind = "ntomb" -> r.room \o r.id \o r.m \o r.ent \o r.d
             [] OTHER -> r.room \o r.src \o r.sent \o r.label \o r.dst \o r.c \o r.d
+\* the same without the quotes: the pairs that only the quoting keeps apart
+PreFlat(r) == IF r.kind = "node" THEN r.id \o Cat(r.room) \o r.c \o r.m \o r.ent \o Cat(r.json) \o Cat(r.bin) ELSE Pre(r)
 \* C06: a signature valid for one row is valid for no other row, of any kind
 Collisions == {p \in Rows \X Rows : p[1] # p[2] /\ Pre(p[1]) = Pre(p[2])}
 Injective == Collisions = {}
@@ -31,7 +38,7 @@ Class(p) == IF p[1].kind # p[2].kind THEN "NoKindSeparation"
             ELSE "UnframedConcatenation"
 \* the intended encoding: kind tag, every field length-prefixed, presence marked
 Framed(x) == "[" \o x \o "]"
-PreFramed(r) == CASE r.kind = "node" -> "N" \o Framed(r.id) \o Framed(r.room) \o Framed(r.c) \o Framed(r.m) \o Framed(r.ent) \o Framed(r.bin)
+PreFramed(r) == CASE r.kind = "node" -> "N" \o Framed(r.id) \o Framed(r.room) \o Framed(r.c) \o Framed(r.m) \o Framed(r.ent) \o Framed(r.json) \o Framed(r.bin)
                   [] r.kind = "edge" -> "E" \o Framed(r.src) \o Framed(r.sent) \o Framed(r.label) \o Framed(r.dst) \o Framed(r.c)
                   [] r.kind = "ntomb" -> "T" \o Framed(r.room) \o Framed(r.id) \o Framed(r.m) \o Framed(r.ent) \o Framed(r.d)
                   [] OTHER -> "U" \o Framed(r.room) \o Framed(r.src) \o Framed(r.sent) \o Framed(r.label) \o Framed(r.dst) \o Framed(r.c) \o Framed(r.d)
